@@ -66,7 +66,7 @@ class Result:
 
 def run_verus(path, rlimit=60, multiple_errors=8, timeout=600, extra=()):
     cmd = ["verus", os.path.basename(path), "--rlimit", str(rlimit), "--multiple-errors", str(multiple_errors),
-           "--output-json", "--time-expanded", "--error-format=json"] + list(extra)
+           "--output-json", "--time-expanded", "--error-format=json", "--triggers-mode", "silent"] + list(extra)
     r = Result()
     r.cmd = " ".join(cmd)
     t0 = time.time()
